@@ -72,6 +72,17 @@ def specs(tier):
                 yield spec
 
 
+    # Markov levels whose probability does not fall with the level number (the trainer lists them by probability: 1, 3, 2, 4)
+    for term in TERMINALS[:2]:
+        for gr in ([('M', 1.0)], [('M', .5), ('D1', .5)], [('A1D1', .6), ('M', .4)]):
+            for op in ([(1, .25), (3, .125), (2, .0625)], [(2, .5), (1, .25), (3, .125)], [(1, .25), (3, .25), (2, .125)]):
+                spec = dict(term)
+                spec['grammar'] = gr
+                spec['prince'] = PRINCE
+                spec['omen'] = dict(R.DEFAULT_OMEN, omen_prob=op)
+                yield spec
+
+
 def shards(tier):
     return [('disk', i, NSHARDS) for i in range(NSHARDS)]
 
